@@ -38,8 +38,14 @@ def job(spec):
                 "api": c["api"]}
         try:
             if c["api"] == "MatchedFilter":
-                mf = MatchedFilter(z, loc_method="norm", scale_method="norm", temp_kind=c["kind"], nbins_max=c["mx"],
-                                   spacing_factor=c["fn"] / c["fd"])
+                if c.get("std") == "default":
+                    # the default standardisation (median / IQR) on a noiseless pulse: more than half of the samples tie, the IQR is 0,
+                    # the documented unit-scale fallback applies and the standardised data are z - median (integers again)
+                    mf = MatchedFilter(z, temp_kind=c["kind"], nbins_max=c["mx"], spacing_factor=c["fn"] / c["fd"])
+                    base["z"] = [int(v) - int(np.median(z)) for v in c["z"]]
+                else:
+                    mf = MatchedFilter(z, loc_method="norm", scale_method="norm", temp_kind=c["kind"], nbins_max=c["mx"],
+                                       spacing_factor=c["fn"] / c["fd"])
                 hs = 1 if c["kind"] == "boxcar" else 64
                 bank = [{"h": [int(round(float(x) * hs)) for x in t.data], "ref": int(t.ref_bin)} for t in mf.temp_bank]
                 base.update({"widths": [int(w) for w in mf.temp_widths] if c["kind"] == "boxcar" else [],
@@ -113,6 +119,14 @@ def run(v) -> None:
             temps = [[rng.randrange(0, 5) for _ in range(rng.randrange(1, min(n, 9)))] for _ in range(k)]
             temps = [t if any(t) else [1] for t in temps]
             cases.append({"api": "kernel", "kind": "custom", "z": z, "temps": temps, "refs": [rng.randrange(0, len(t)) for t in temps]})
+    for n in ([12, 17, 24, 33] if quick else [12, 13, 17, 20, 24, 29, 33, 40, 48]):      # noiseless pulses under the DEFAULT standardisation
+        for w in (1, 2, 3):
+            for t0 in (0, n - w, rng.randrange(1, n - w)):
+                z = [3] * n
+                for i in range(t0, t0 + w):
+                    z[i] = 11
+                if np.subtract(*np.percentile(z, [75, 25])) == 0:       # the clause presupposes a zero IQR (else the data are rescaled by it)
+                    cases.append({"api": "MatchedFilter", "kind": "boxcar", "z": z, "mx": 4, "fn": 2, "fd": 1, "inv": None, "std": "default"})
     specs = [{"id": i, "cases": cases[i::14]} for i in range(14)]
     # histories in ONE process: banks that agree in kind, largest width and number of templates but not in their widths, back to back
     for si, seq in enumerate([[(4, 2, 1), (4, 7, 4), (4, 2, 1)], [(8, 3, 2), (8, 7, 4), (8, 9, 5), (8, 2, 1)], [(12, 7, 4), (12, 9, 5), (12, 7, 4)]]):
